@@ -25,6 +25,30 @@ def route_pipeline(spec, route):
     return [("h", route)] + [("m", mid) for _, mid in (gen_scopes.chain_of(spec["bp"], route) or [])]
 
 
+def import_then_explicit(spec, observed, designated):
+    """known finding C04-import-beats-later-registration: in one blueprint (one op list) the OBSERVED constructor is brought in
+    by `bp.import` and the DESIGNATED one is registered explicitly at a later position of the same list"""
+    imports = {int(k) for k in (spec.get("ctor_imports") or {})}
+
+    def lists(ops, acc):
+        acc.append(ops)
+        for op in ops:
+            if op[0] == "nest":
+                lists(op[1]["ops"], acc)
+        return acc
+    for ops in lists(spec["bp"], []):
+        first_import = None
+        for pos, op in enumerate(ops):
+            n = gen_scopes.op_ctor_name(op)
+            if n is None:
+                continue
+            if n == observed and op[0] == "ctor" and op[1] in imports and first_import is None:
+                first_import = pos
+            if n == designated and first_import is not None and pos > first_import and not (op[0] == "ctor" and op[1] in imports):
+                return True
+    return False
+
+
 def key_of(comp):
     return (comp[0], int(comp[1:]))
 
@@ -129,7 +153,7 @@ def run(R):
     obs, info, rt = e2e_stage.get_runtime(R)
     R.coverage["e2e_stage"] = {k: v for k, v in info.items()}
     known = {f["id"]: f for f in R.known_findings()}
-    fails, dis, known_hits, clone_bad = [], [], [], []
+    fails, dis, known_hits, clone_bad, import_hits = [], [], [], [], []
 
     # ---- corpus: protocol lines with pinned answers (model regression) -----------------------------------
     cl = corpus_model_lines()
@@ -226,9 +250,11 @@ def run(R):
                             n_nontrivial += 1
                     if len(samples) < 4 and ty in multi and fam == "scopes":
                         samples.append({"program": name, "request": where, "component": comp, "type": "T%d" % ty, "observed": repr(otree), "designated": repr(rtree)})
+                    imp_known = ("C04-import-beats-later-registration" in known and otree != rtree and
+                                 isinstance(otree[0], str) and isinstance(rtree[0], str) and import_then_explicit(spec, otree[0], rtree[0]))
                     if otree[0] != model_get.get(key, {}).get(ty) or (mtree is not None and otree != mtree):
                         amb = ambiguous_for(des, comps, ty, defs)
-                        if not (amb and mtree is not None and otree == mtree):
+                        if not (amb and mtree is not None and otree == mtree) and not imp_known:
                             dis.append({"program": name, "what": "the generated server delivered a value the model does not predict", "request": where, "component": comp,
                                         "ty": ty, "observed": repr(otree), "model_pipeline": repr(mtree), "model_get": model_get.get(key, {}).get(ty)})
                     if otree != rtree:
@@ -237,6 +263,8 @@ def run(R):
                                 "bp": spec["bp"], "app_module_source": obs[name]["src"]}
                         if ("C04-type-keyed-next-state" in known and mtree is not None and otree == mtree and ambiguous_for(des, comps, ty, defs)):
                             known_hits.append(item)
+                        elif imp_known:
+                            import_hits.append(item)
                         else:
                             fails.append(item)
             for ty, old, new, line in ob.clones:
@@ -349,6 +377,58 @@ def run(R):
         if model_edges != q["_real"]:
             dis.append({"program": pname, "what": "model `applyReqs` result differs from pavexc's borrow-checked graph", "model": model_edges, "real": q["_real"]})
 
+    # ---- L3c: the cross-middleware cloning analysis of every stage (pipeline.rs step 4) vs `stageCloning` ---------
+    # hook: {"ev":"stage4","mws":[[[type, by_ref, cloneable, copy],..],..],"result":[[type,[index,..]],..]} | "error":[type,index]
+    slines4, smeta4, stage_fails = [], [], []
+    stage_patterns = {}
+    for pname, o in obs.items():
+        for rec in o.get("dump", []):
+            if rec.get("ev") != "stage4":
+                continue
+            names = sorted({i[0] for mw in rec["mws"] for i in mw})
+            tid = {n: k for k, n in enumerate(names)}
+            mws = [[{"ty": tid[i[0]], "byRef": i[1], "cloneable": i[2], "copy": i[3]} for i in mw] for mw in rec["mws"]]
+            slines4.append(json.dumps({"op": "stage", "mws": mws}))
+            smeta4.append((pname, rec, names))
+            # model-free oracle (what C01 needs from this pass): once a non-Copy value has been handed over by value
+            # WITHOUT `.clone()`, no later middleware of the stage touches it; a clone is only taken of a cloneable value
+            if "result" in rec:
+                cl = {t: set(ix) for t, ix in rec["result"]}
+                for t in names:
+                    acc = [next((("ref" if i[1] else "val", i[2], i[3]) for i in mw if i[0] == t), None) for mw in rec["mws"]]
+                    pat = "".join("-" if a is None else ("b" if a[0] == "ref" else "m") for a in acc)
+                    stage_patterns[pat] = stage_patterns.get(pat, 0) + 1
+                    for k, a in enumerate(acc):
+                        if a is None or a[0] != "val" or a[2]:
+                            continue
+                        if k in cl.get(t, set()):
+                            if not a[1]:
+                                stage_fails.append({"program": pname, "why": "stage analysis clones `%s` for middleware %d whose constructor is never-clone" % (t, k), "record": rec})
+                        elif any(x is not None for x in acc[k + 1:]):
+                            stage_fails.append({"program": pname, "why": "stage analysis lets middleware %d take `%s` by value without a clone although a later middleware of the stage uses it (pattern %s)" % (k, t, pat),
+                                                "record": rec, "app_module_source": o.get("src")})
+    souts4 = [json.loads(x) for x in pxvlib.run_model("scope", slines4)] if slines4 else []
+    n_stage_dis = 0
+    for (pname, rec, names), mo in zip(smeta4, souts4):
+        per = {names[t]: v for t, v in mo.get("per_type", [])}
+        if "result" in rec:
+            real = {t: sorted(ix) for t, ix in rec["result"]}
+            model = {names[t]: sorted(ix) for t, ix in mo.get("cloning", [])} if mo.get("r") == "ok" else None
+            if model != real:
+                n_stage_dis += 1
+                dis.append({"program": pname, "what": "model `stageCloning` differs from pipeline.rs step 4", "real": real, "model": mo, "mws": rec["mws"]})
+        else:
+            t, ix = rec["error"]
+            pm = per.get(t)
+            if mo.get("r") != "rejected" or not isinstance(pm, dict) or pm.get("error") != ix:
+                n_stage_dis += 1
+                dis.append({"program": pname, "what": "model `stageCloning` differs from pipeline.rs step 4 (rejection)", "real": rec["error"], "model": mo, "mws": rec["mws"]})
+    R.coverage["stage_cloning"] = {"stages": len(slines4), "distinct_access_patterns": len(stage_patterns), "disagreements": n_stage_dis,
+                                   "oracle_failures": len(stage_fails),
+                                   "patterns_sample": dict(sorted(stage_patterns.items(), key=lambda kv: -kv[1])[:12])}
+    for f in stage_fails[:2]:
+        R.violation("cross-middleware cloning analysis: " + f["why"], f)
+
     n_scopes = sum(1 for o in obs.values() if o["klass"] == "scopes")
     R.coverage["programs"] = len(progs)
     R.coverage["evaluations"] = n_evals + len(graphs)
@@ -365,20 +445,24 @@ def run(R):
     R.coverage["generic_family"] = hist_generic
     R.coverage["samples"] = samples
     R.coverage["model_vs_impl_disagreements"] = len(dis)
-    R.coverage["impl_vs_oracle_failures"] = len(fails) + len(clone_bad) + len(graph_fails) + len(known_hits)
+    R.coverage["impl_vs_oracle_failures"] = len(fails) + len(clone_bad) + len(graph_fails) + len(known_hits) + len(import_hits) + len(stage_fails)
     R.log("servers=%d injected-values=%d nontrivial=%d clones(rt)=%d graphs=%d clone-nodes=%d oracle_failures=%d known=%d disagreements=%d" % (
         len(progs), n_evals, n_nontrivial, n_clones, len(graphs), n_graph_clones, len(fails) + len(clone_bad) + len(graph_fails), len(known_hits), len(dis)))
     if known_hits:
         k = known_hits[0]
         R.known_hit(known["C04-type-keyed-next-state"], "%d injected value(s) in %d program(s), e.g. %s, %s: %s" % (
             len(known_hits), len({x["program"] for x in known_hits}), k["program"], k["request"], k["why"][:300]))
+    if import_hits:
+        k = import_hits[0]
+        R.known_hit(known["C04-import-beats-later-registration"], "%d injected value(s) in %d program(s), e.g. %s, %s: %s" % (
+            len(import_hits), len({x["program"] for x in import_hits}), k["program"], k["request"], k["why"][:300]))
     for f in fails[:3]:
         R.violation("injection is not faithful: " + f["why"], f)
     for c in clone_bad[:2]:
         R.violation("illicit copy at run time: %s (%s)" % (c["why"], c["line"]), c)
     for g in graph_fails[:2]:
         R.violation("illicit clone node in a borrow-checked call graph: " + g["why"], g)
-    real_fail = fails or clone_bad or graph_fails
+    real_fail = fails or clone_bad or graph_fails or stage_fails
     if R.tier == "thorough" and not R.replay and lean_ok and not pxvlib.leanchecker(R, ["Pxv.Thm.C04"]):
         lean_ok = False
         lrep["errors"] = ["leanchecker rejects Pxv.Thm.C04"]
